@@ -129,11 +129,18 @@ Own(c, i) == LET nxt == {j \in CoIdx(c) : j > i} IN
 Case(c, e) == [chain |-> c, err |-> e, cos |-> [j \in 1..Cardinality(CoIdx(c)) |-> Own(c, SetToSeq(CoIdx(c))[j])],
             phases |-> Phases, ev |-> Events(c, e)]
 
+(* Not determined by the manual, hence not generated: whether an error raised inside load's reader function - which
+   load itself catches and turns into "fail, message" - is first shown to the message handler of an enclosing xpcall.
+   (The reference implementation and golua both call the handler there.)  A pcall or a coroutine boundary in between
+   installs its own (empty) handler, which makes the case determinate again. *)
+Legal(c) == \A i \in 1..Len(c) : \A j \in 1..Len(c) :
+              (i < j /\ c[i].r = "xpcall" /\ c[j].r = "load") => {m \in (i + 1)..(j - 1) : c[m].r \in Catchers \cup CoRoutes} # {}
+
 Init == chain = <<>> /\ err = "-"
 Extend == /\ err = "-" /\ Len(chain) < MaxHops
           /\ \E h \in Hops : chain' = Append(chain, h)
           /\ UNCHANGED err
-Finish == /\ err = "-" /\ HasCo(chain) /\ (IF EmitShort THEN TRUE ELSE Len(chain) = MaxHops)
+Finish == /\ err = "-" /\ HasCo(chain) /\ Legal(chain) /\ (IF EmitShort THEN TRUE ELSE Len(chain) = MaxHops)
           /\ \E e \in ErrKinds : err' = e /\ Emit(Case(chain, e))
           /\ UNCHANGED chain
 Next == Extend \/ Finish
